@@ -3,9 +3,20 @@ import Driver.Util
 import Driver.Pure
 namespace Driver
 
-/-- the state of whichever engine the last `init` line selected -/
+/-- the state of whichever engine the last `init <engine> …` line selected
+    (one constructor per stateful engine) -/
 inductive EngineState where
   | none
+
+/-- `init <engine> k=v …` : select the engine and build its initial state; prints the first observation -/
+def initLine (ws : List String) : EngineState × String :=
+  match ws with
+  | _ => (.none, "bad-op")
+
+/-- an operation line for the currently selected engine -/
+def opLine (st : EngineState) (ws : List String) : EngineState × String :=
+  match st with
+  | .none => (st, "bad-op")
 
 def stepLine (st : EngineState) (line : String) : EngineState × Option String :=
   match words line with
@@ -13,7 +24,8 @@ def stepLine (st : EngineState) (line : String) : EngineState × Option String :
   | w :: ws =>
     if w.startsWith "#" then (st, none)
     else if w == "call" then (st, some (pureCall ws))
-    else (st, some "bad-op")
+    else if w == "init" then let (st', o) := initLine ws; (st', some o)
+    else let (st', o) := opLine st (w :: ws); (st', some o)
 
 partial def loop (h : IO.FS.Stream) (out : IO.FS.Stream) (st : EngineState) : IO Unit := do
   let line ← h.getLine
